@@ -67,6 +67,27 @@ type shared struct {
 	auth   runtime.Authenticator
 	rec    *recorder
 	srvKey string
+	// hostile sequences: the application's long-lived writer per credential description
+	hostile bool
+	writers map[string]runtime.ClientAuthInfoWriter
+}
+
+// writer: a fresh writer per use, or (hostile sequences) the one instance the
+// application created for that credential.
+func (sh *shared) writer(c Cred) runtime.ClientAuthInfoWriter {
+	if !sh.hostile {
+		return writerFor(c)
+	}
+	k := jsonKey(c)
+	if w, ok := sh.writers[k]; ok {
+		return w
+	}
+	if sh.writers == nil {
+		sh.writers = map[string]runtime.ClientAuthInfoWriter{}
+	}
+	w := writerFor(c)
+	sh.writers[k] = w
+	return w
 }
 
 func jsonKey(v any) string { b, _ := json.Marshal(v); return string(b) }
@@ -75,7 +96,7 @@ func jsonKey(v any) string { b, _ := json.Marshal(v); return string(b) }
 // description) the same authenticator value, the cases chained through Then.
 // Every step is judged by the reference exactly as if it ran on fresh instances.
 func checkUnit(c Case) verdict {
-	sh := &shared{}
+	sh := &shared{hostile: c.Hostile}
 	v := checkUnitOn(c, sh)
 	v.steps = 1
 	earlier := []*Cred{c.Client.Default} // values DefaultAuthentication had at earlier steps
@@ -102,6 +123,9 @@ func checkUnit(c Case) verdict {
 				vn.class = "default-auth/stale-after-reassignment"
 			} else {
 				vn.class += "/after-other-requests-on-shared-instances"
+				if sh.hostile {
+					vn.class += "/writers-reused-and-earlier-requests-scrubbed"
+				}
 			}
 			vn.what = fmt.Sprintf("step %d of a sequence on one Runtime and one authenticator value: %s", step, vn.what)
 			vn.steps = step
@@ -110,6 +134,9 @@ func checkUnit(c Case) verdict {
 		label := "seq:"
 		if reassigned {
 			label = "seq-default-reassigned:"
+		}
+		if sh.hostile {
+			label = "hostile-" + label
 		}
 		v = verdict{outcome: label + vn.outcome, reached: v.reached || vn.reached, seen: v.seen + "\n  then: " + vn.seen, steps: step}
 		earlier = append(earlier, n.Client.Default)
@@ -126,16 +153,21 @@ func checkUnitOn(c Case, sh *shared) verdict {
 	exp := expect(abs, c.Server)
 
 	if sh.rt == nil {
-		sh.rt = newRuntime(c.Client, "c14.example")
-	} else if c.Client.Default != nil {
+		sh.rt = newRuntime(&Client{}, "c14.example")
+	}
+	if c.Client.Default != nil {
 		// the event between two calls: the application (re-)assigns the documented public field
-		sh.rt.DefaultAuthentication = writerFor(*c.Client.Default)
+		sh.rt.DefaultAuthentication = sh.writer(*c.Client.Default)
 	} else {
 		sh.rt.DefaultAuthentication = nil
 	}
-	creq, err := buildClientRequestOn(sh.rt, c.Client, "/op")
+	creq, err := buildClientRequestWith(sh.rt, c.Client, "/op", sh.writer)
 	if err != nil {
 		return fail("client-build-error", "CreateHttpRequest: %v", err)
+	}
+	if sh.hostile {
+		// runs last (after the judgment and after the body has been released)
+		defer func() { scrub(creq) }()
 	}
 	// classification aid only: did the client put the default credential's slot on the request at all
 	defaultSlot := c.Client.Default != nil && slotPresent(creq, c.Client.Default)
@@ -147,6 +179,9 @@ func checkUnitOn(c Case, sh *shared) verdict {
 		release(creq)
 		if err != nil {
 			return fail("wire-error", "%v; bytes written: %q", err, raw)
+		}
+		if sh.hostile {
+			defer func() { scrub(sreq) }()
 		}
 	} else {
 		sreq = creq
